@@ -846,8 +846,16 @@ fn c17() {
     }
 }
 
+fn parse_scripts(scripts: &[String]) {
+    for s in scripts {
+        let r = air_parser::parse(s);
+        println!("parse {:?}: {}", s, if r.is_ok() { "ACCEPTED".to_string() } else { format!("rejected: {}", r.err().unwrap().lines().next().unwrap_or("")) });
+    }
+}
+
 fn main() {
     let which: Vec<String> = std::env::args().skip(1).collect();
+    if which.first().map(|w| w == "parse").unwrap_or(false) { parse_scripts(&which[1..]); return; }
     if which.iter().any(|w| w == "c17") { c17(); }
     if which.first().map(|w| w.starts_with("nd-")).unwrap_or(false) { nd::main_nd(&which); return; }
     if which.iter().any(|w| w == "c20") { c20(); }
